@@ -97,6 +97,10 @@ def generate(tier, rng):
         p.gap = {g: v for g, v in p.gap.items() if g < k}
         src = pgen.layout(p, rng, rng.choice(['random', 'spaces', 'spaces']))
         yield {'kind': 'text', 'src': lib.hx(src), 'origin': 'mutant', 'widths': [-1, 2], 'valid': False}
+        if i % 3 == 0 and src.rstrip(b' \t\r\n') != src:
+            # the same input ending in its last code token (nothing, not even a line end, after what the parser may
+            # have left unparsed)
+            yield {'kind': 'text', 'src': lib.hx(src.rstrip(b' \t\r\n')), 'origin': 'mutant', 'widths': [-1, 2], 'valid': False}
 
 
 DEGENERATE = [b'', b'\n', b'\n\n', b' ', b'-- only a comment', b'-- c\n', b'--[[ block\ncomment ]]', b'// c', b'x=1', b'x=1 -- c', b'return',
@@ -109,7 +113,8 @@ CORPUS_VALID = [b'if (a) b=1 else\nc=2\n', b'if (a) b=1 else ;\nc=2\n', b'if (a)
                 b'x=1;;y=2;\n', b';x=1\n', b'x = {1,2;3,}\n', b'x = {a=1,\n  [2]=3;\n  f(),\n}\n', b'for i=1,2 do end for a,b in c do end\n',
                 b'function a.b:c(...) return ... end\n', b'while true do break x=1 end\n', b'x\t=\t1\r\ny = 2\r\n', b'x=1\n\n\n\ny=2\n', b'do\n\nx=1\nend\n',
                 b'do\n// c\nx=1\nend\n', b'x=1--c\ny=2//d\n']
-CORPUS_TEXT = [b'x=1\n?x,y\nz=2\n', b'a |= 1\n', b'x=1\na |= 1\n', b'?x,y\n', b'a=b=c\n', b'x=1 end\n', b'f() )\n', b'#include foo.lua\nx=1\n',
+CORPUS_TEXT = [b'print(x))', b'function f()\n x=1\nend\nend', b'a=1\nb', b'x=1 end', b'x=1)', b'x=1 ?',      # the unparsed token is the very last token
+               b'x=1\n?x,y\nz=2\n', b'a |= 1\n', b'x=1\na |= 1\n', b'?x,y\n', b'a=b=c\n', b'x=1 end\n', b'f() )\n', b'#include foo.lua\nx=1\n',
                b'(f or g)(x)\n', b'x=(a+b).c\n', b'(-x):f()\n', b'x=(a)(b)\n', b'(a).b=1\n', b'("x"):len()\n', b'(f)(x)\n', b'x=((a))\n', b'x=(a)\n',
                b'if (a) do x=1 end\n', b'if (a) do\n x=1\nend\n', b'if (a) if (b) c=1\nd=2\n', b'x = ()\n', b'f(())\n', b'x = {()}\n', b'()[1]=2\n',
                b'if (a) b=1 else c=2\nd=3\n', b'if (a) b=1 -- c\nd=3\n', b'do if (a) b=1\nc=2 end\n', b'IF X THEN END\n', b'x=1;;y=2;\n', b';x=1\n',
